@@ -2,7 +2,9 @@
 
 NaN-domain abstract interpretation of every FormulaStep.apply (all subsets of popped operands
 being NaN, finite operands symbolic), of MetricFetcher.apply (all encodings of "missing" x both
-settings), plus guard-shape rules on the evaluator's output mapping and the engine loop.
+settings), plus scenario rules (result NaN / inf / finite) on the evaluator's output mapping and the
+engine loop; C13.UNDEF (zero divisor -> NaN) and C13.READ (a fetcher's stream is only advanced through
+fetch_next()).  Steps are interpreted with their private helpers spliced in.
 """
 from __future__ import annotations
 
